@@ -3,6 +3,7 @@ package sctp
 // C14 Stream close is ordered after the stream's data; identifiers can be reused.
 
 import (
+	"errors"
 	"fmt"
 	"testing"
 	"time"
@@ -28,12 +29,16 @@ type c14Scn struct {
 	Other   int         `json:"other"` // messages on an unrelated stream that must be unaffected
 	Pos     [2][]vfFD   `json:"pos"`
 	Rules   []vfRule    `json:"rules,omitempty"`
+	// Poll: the readers poll with 1 ms read deadlines (each batch of reads ends with a read
+	// that timed out, whose error is still pending when the next packet arrives)
+	Poll bool `json:"poll,omitempty"`
 }
 
 func genC14(rt *rapid.T) c14Scn {
 	x := c14Scn{IL: [2]bool{rapid.Bool().Draw(rt, "ila"), rapid.Bool().Draw(rt, "ilb")}, MTU: rapid.SampledFrom([]int{0, 0, 200, 1500}).Draw(rt, "mtu"),
 		RBuf: rapid.SampledFrom([]int{0, 0, 30000, 100000}).Draw(rt, "rbuf")}
 	x.TSN = [2]uint32{genTSN(rt, "tsna", 8448), genTSN(rt, "tsnb", 8448)}
+	x.Poll = rapid.IntRange(0, 2).Draw(rt, "poll") == 0
 	ns := rapid.IntRange(1, 3).Draw(rt, "nstreams")
 	lim := 20000
 	if x.RBuf != 0 {
@@ -89,13 +94,20 @@ func runC14(t *testing.T, x c14Scn, verbose bool) vfCase {
 				var r readRes
 				buf := make([]byte, 1<<17)
 				for {
-					st.lock.RLock()
-					ok := st.reassemblyQueue.isReadable() || st.readErr != nil
-					st.lock.RUnlock()
-					if !ok {
-						return r
+					if x.Poll {
+						_ = st.SetReadDeadline(time.Now().Add(time.Millisecond))
+					} else {
+						st.lock.RLock()
+						ok := st.reassemblyQueue.isReadable() || st.readErr != nil
+						st.lock.RUnlock()
+						if !ok {
+							return r
+						}
 					}
 					n, ppi, err := st.ReadSCTP(buf)
+					if x.Poll && errors.Is(err, ErrReadDeadlineExceeded) {
+						return r // nothing (more) to read now; the timeout stays pending until the next poll
+					}
 					if err != nil {
 						r.err = err.Error()
 						r.eof = err.Error() == "EOF"
@@ -326,6 +338,9 @@ func runC14(t *testing.T, x c14Scn, verbose bool) vfCase {
 	}
 	if x.IL[0] && x.IL[1] {
 		c.class("interleaving")
+	}
+	if x.Poll {
+		c.class("polling-reads")
 	}
 	c.Nontrivial = (outstandingAtClose && (reconfFault || out.NFaults > 0)) || cycles2
 	if (c.Verdict != "" || verbose) && out.sim != nil {
